@@ -1,4 +1,5 @@
 import RsMatterVerif.Model.BtpLink
+import RsMatterVerif.Model.BtpRing
 import Driver.Util
 /-!
 Driver for C18.  Replays the scheduler / injection operations of the harness on `Model/BtpLink`
@@ -54,6 +55,11 @@ structure Ghost where
   impl : List Nat := []
 
 structure St where
+  /-- kind `r`: the model of the ring buffer (`Model/BtpRing.lean`) and, independently, the
+  specification: a bounded FIFO of bytes -/
+  ring : Option Ring := none
+  ringN : Nat := 0
+  ringQ : List Nat := []
   link : Link := {}
   ga : Ghost := {}
   gb : Ghost := {}
@@ -185,9 +191,34 @@ def verdict (ora : Option String) (model impl : String) : String :=
   | some why => s!"ORA {why}"
   | none => if model = impl then "ok" else s!"DIS {model}"
 
+def obsStr (o : RingObs) : String :=
+  s!"{hex o.out} {o.len} {o.free} {b2n o.full} {b2n o.empty}"
+
+def parseRingOp : List String → Option RingOp
+  | ["rpush", hx] => some (.push (unhex hx))
+  | ["rpop", k] => some (.pop (k.toNat?.getD 0))
+  | ["rpushb", b] => some (.pushByte (b.toNat?.getD 0 % 256))
+  | ["rpopb"] => some .popByte
+  | ["rclear"] => some .clear
+  | _ => none
+
 def step (st : St) (line : String) : St × String :=
   let (op, out) := splitArrow line
   match words op with
+  | ["case", _, "r", ns] =>
+    let n := ns.toNat?.getD 1
+    ({ ring := some (Ring.new n), ringN := n, ringQ := [] }, "case")
+  | "rpush" :: _ | "rpop" :: _ | "rpushb" :: _ | "rpopb" :: _ | "rclear" :: _ =>
+    match st.ring, parseRingOp (words op) with
+    | some r, some rop =>
+      let (r', mo) := r.step rop
+      -- specification: the bounded byte FIFO, evaluated on the implementation's own output
+      let (q', so) := qStep st.ringN st.ringQ rop
+      let ora := if out = "panic" then some "panic"
+        else if out ≠ obsStr so then some s!"ring buffer: the implementation answered '{out}', a byte queue of capacity {st.ringN} answers '{obsStr so}'"
+        else none
+      ({ st with ring := some r', ringQ := q' }, verdict ora (obsStr mo) out)
+    | _, _ => (st, "BAD ring op")
   | "case" :: _ :: kind :: ia :: ib :: ga :: gb :: ra :: rb :: _ =>
     let n (s : String) := s.toNat?.getD 0
     let ea : End := { s := Session.fresh (n ia = 1) (n ra = 1), gattMtu := optMtu (n ga) }
